@@ -10,7 +10,7 @@ import ecc_scen as es
 import ecc_util as eu
 from common import hx
 
-LEAN_MODULES = ["Pff.Props.C08", "Pff.Props.RunA", "Pff.Props.NonVacuity"]
+LEAN_MODULES = ["Pff.Props.C08", "Pff.Props.RunA", "Pff.Props.NonVacuity", "Pff.Props.RunE"]
 PROP_MODULE = "Pff.Props.C08"
 THEOREMS = ["Pff.Entry.C08_independent", "Pff.Entry.C08_glued", "Pff.Entry.C08_fields_ignore_trailing", "Pff.Entry.C08_overlong_track_whole",
             "Pff.Entry.C08_overlong_track_header", "Pff.Scan.C14_scan_built", "Pff.Scan.C14_content_built",
@@ -23,7 +23,8 @@ THEOREMS = ["Pff.Entry.C08_independent", "Pff.Entry.C08_glued", "Pff.Entry.C08_f
             "Pff.Run.C08_run_long_enough_reads_inside",
             "Pff.Run.C08_run_independent",
             "Pff.Run.C08_run_independent_header",
-            "Pff.NonVacuity.toy_independence_premises"]
+            "Pff.NonVacuity.toy_independence_premises",
+            "Pff.Run.C13_run_no_track_no_write"]
 MODELLED = [("pyFileFixity/header_ecc.py", "main"), ("pyFileFixity/header_ecc.py", "entry_fields"),
             ("pyFileFixity/structural_adaptive_ecc.py", "main"), ("pyFileFixity/structural_adaptive_ecc.py", "entry_fields"),
             ("pyFileFixity/lib/aux_funcs.py", "get_next_entry")]
